@@ -156,7 +156,7 @@ func (c19) Gen(r *sim.Rng, tier string) *scn.Scn {
 	s := &scn.Scn{P: map[string]int64{}}
 	nc := r.Range(2, 4)
 	ph := scn.Phase{Sched: randSched(r)}
-	if r.Chance(3, 10) {
+	if r.Chance(3, 10) || os.Getenv("PBSIM_C19_PROC_ONLY") != "" {
 		// process mode
 		s.Mode = "process"
 		s.NoDryRun = true
@@ -174,14 +174,28 @@ func (c19) Gen(r *sim.Rng, tier string) *scn.Scn {
 		for c := 0; c < nc; c++ {
 			var ops []scn.Op
 			for i, n := 0, r.Range(1, 5); i < n; i++ {
-				ops = append(ops, scn.Op{Op: c19ProcOps[r.Intn(len(c19ProcOps))], Obj: r.Intn(nobj), N: int64(r.Intn(1 << 20))})
+				po := scn.Op{Op: c19ProcOps[r.Intn(len(c19ProcOps))], Obj: r.Intn(nobj), N: int64(r.Intn(1 << 20))}
+				if only := os.Getenv("PBSIM_C19_PROC_ONLY"); only != "" { // experiments only
+					po.Op = only
+				}
+				ops = append(ops, po)
 			}
 			ph.Clients = append(ph.Clients, ops)
 		}
 		// clients tend to hit the same objects first: that is where init races live
-		if r.Chance(1, 2) {
+		switch r.Intn(6) {
+		case 0, 1, 2:
 			for c := 1; c < nc; c++ {
 				ph.Clients[c][0] = ph.Clients[0][0]
+			}
+		case 3:
+			// different message types of one legacy file, first-used at the same time: they share
+			// the file's descriptor, which is loaded on first use of any of them
+			// (the families of c19lg.go: the linked legacy packages first-use themselves in their init functions)
+			nall := int64(len(c19FreshLegacy) + len(c19Legacy))
+			pkg := int64(r.Intn(len(c19FreshLegacy)))
+			for c := 0; c < nc; c++ {
+				ph.Clients[c][0] = scn.Op{Op: "pm-legacy", N: pkg + nall*int64((c+r.Intn(2))%3) + 3*nall*int64(r.Intn(1000))}
 			}
 		}
 		s.Phases = []scn.Phase{ph}
@@ -624,12 +638,87 @@ func c19MsgOp(op string, newMsg func() proto.Message, wire []byte) sim.OpResult 
 	return sim.OpResult{Digest: h.h}
 }
 
-var c19Legacy = []func() any{
-	func() any { return new(l2a.Message) }, func() any { return new(l2b.Message) }, func() any { return new(l2c.Message) },
-	func() any { return new(l2d.Message) }, func() any { return new(l2e.Message) }, func() any { return new(l2f.Message) },
-	func() any { return new(l3a.Message) }, func() any { return new(l3b.Message) }, func() any { return new(l3c.Message) },
-	func() any { return new(l3d.Message) }, func() any { return new(l3e.Message) }, func() any { return new(l3f.Message) },
-	func() any { return new(l2a.SiblingMessage) }, func() any { return new(l3f.SiblingMessage) },
+// c19Legacy: per legacy package (old generator output: Descriptor() methods over a gzipped file
+// descriptor shared by all types of the file), three message types of the same file.
+var c19Legacy = [][3]func() any{
+	{func() any { return new(l2a.Message) }, func() any { return new(l2a.Message_ChildMessage) }, func() any { return new(l2a.SiblingMessage) }},
+	{func() any { return new(l2b.Message) }, func() any { return new(l2b.Message_ChildMessage) }, func() any { return new(l2b.SiblingMessage) }},
+	{func() any { return new(l2c.Message) }, func() any { return new(l2c.Message_ChildMessage) }, func() any { return new(l2c.SiblingMessage) }},
+	{func() any { return new(l2d.Message) }, func() any { return new(l2d.Message_ChildMessage) }, func() any { return new(l2d.SiblingMessage) }},
+	{func() any { return new(l2e.Message) }, func() any { return new(l2e.Message_ChildMessage) }, func() any { return new(l2e.SiblingMessage) }},
+	{func() any { return new(l2f.Message) }, func() any { return new(l2f.Message_ChildMessage) }, func() any { return new(l2f.SiblingMessage) }},
+	{func() any { return new(l3a.Message) }, func() any { return new(l3a.Message_ChildMessage) }, func() any { return new(l3a.SiblingMessage) }},
+	{func() any { return new(l3b.Message) }, func() any { return new(l3b.Message_ChildMessage) }, func() any { return new(l3b.SiblingMessage) }},
+	{func() any { return new(l3c.Message) }, func() any { return new(l3c.Message_ChildMessage) }, func() any { return new(l3c.SiblingMessage) }},
+	{func() any { return new(l3d.Message) }, func() any { return new(l3d.Message_ChildMessage) }, func() any { return new(l3d.SiblingMessage) }},
+	{func() any { return new(l3e.Message) }, func() any { return new(l3e.Message_ChildMessage) }, func() any { return new(l3e.SiblingMessage) }},
+	{func() any { return new(l3f.Message) }, func() any { return new(l3f.Message_ChildMessage) }, func() any { return new(l3f.SiblingMessage) }},
+}
+
+// c19LegacyOp makes (possibly first) use of one message type of a legacy package, fills the
+// submessages reachable from it through the descriptors it hands out, and checks that the types of
+// one file agree with each other: one file descriptor, and a message-typed field's descriptor is the
+// descriptor its Go type reports.
+func c19LegacyOp(n int64) sim.OpResult {
+	all := append(append([][3]func() any{}, c19FreshLegacy...), c19Legacy...)
+	pkg := all[int(n)%len(all)]
+	kind := int(n/int64(len(all))) % 3
+	m := protoimpl.X.ProtoMessageV2Of(pkg[kind]()).ProtoReflect()
+	md := m.Descriptor()
+	h := newHasher()
+	h.s(string(md.FullName()))
+	var fill func(m protoreflect.Message, depth int)
+	fill = func(m protoreflect.Message, depth int) {
+		fds := m.Descriptor().Fields()
+		for i := 0; i < fds.Len(); i++ {
+			f := fds.Get(i)
+			h.s(string(f.Name()))
+			h.u(uint64(f.Kind()))
+			switch {
+			case f.IsMap() || f.ContainingOneof() != nil:
+			case f.Message() != nil && depth > 0:
+				h.s(string(f.Message().FullName()))
+				if f.IsList() {
+					fill(m.Mutable(f).List().AppendMutable().Message(), depth-1)
+				} else {
+					fill(m.Mutable(f).Message(), depth-1)
+				}
+			case f.Kind() == protoreflect.StringKind && !f.IsList():
+				m.Set(f, protoreflect.ValueOfString("x"))
+			case f.Kind() == protoreflect.Int32Kind && !f.IsList():
+				m.Set(f, protoreflect.ValueOfInt32(7))
+			}
+		}
+	}
+	fill(m, 2)
+	b, err := proto.MarshalOptions{AllowPartial: true, Deterministic: true}.Marshal(m.Interface())
+	if err != nil {
+		h.s(err.Error())
+	}
+	h.b(b)
+	h.u(uint64(proto.Size(m.Interface())))
+	// agreement between the types of the file
+	var mds [3]protoreflect.MessageDescriptor
+	for k := range pkg {
+		mds[k] = protoimpl.X.ProtoMessageV2Of(pkg[k]()).ProtoReflect().Descriptor()
+	}
+	bad := ""
+	for k := 1; k < 3; k++ {
+		if mds[k].ParentFile() != mds[0].ParentFile() {
+			bad = fmt.Sprintf("legacy-descriptors-disagree: %s and %s are declared in the same legacy file but report different FileDescriptor instances", mds[0].FullName(), mds[k].FullName())
+		}
+	}
+	fds := mds[0].Fields()
+	for i := 0; i < fds.Len() && bad == ""; i++ {
+		if f := fds.Get(i); f.Message() != nil && !f.IsMap() {
+			for k := 1; k < 3; k++ {
+				if f.Message().FullName() == mds[k].FullName() && f.Message() != mds[k] {
+					bad = fmt.Sprintf("legacy-descriptors-disagree: field %s has message type %s, but its descriptor is not the one the Go type %T reports", f.FullName(), mds[k].FullName(), pkg[k]())
+				}
+			}
+		}
+	}
+	return sim.OpResult{Digest: h.h, Bad: bad}
 }
 
 func c19EditionsProto() *descriptorpb.FileDescriptorProto {
@@ -951,26 +1040,7 @@ func c19ProcOp(s *scn.Scn, op *scn.Op) sim.OpResult {
 		fd := newMsg().ProtoReflect().Descriptor().ParentFile()
 		return c19DescOp(op, fd, protoregistry.GlobalFiles, nil)
 	case "pm-legacy":
-		v := c19Legacy[int(op.N)%len(c19Legacy)]()
-		m := protoimpl.X.ProtoMessageV2Of(v)
-		h := newHasher()
-		md := m.ProtoReflect().Descriptor()
-		h.s(string(md.FullName()))
-		for i := 0; i < md.Fields().Len(); i++ {
-			f := md.Fields().Get(i)
-			h.s(string(f.Name()))
-			h.u(uint64(f.Kind()))
-			if f.Message() != nil {
-				h.s(string(f.Message().FullName()))
-			}
-		}
-		b, err := proto.MarshalOptions{AllowPartial: true, Deterministic: true}.Marshal(m)
-		if err != nil {
-			h.s(err.Error())
-		}
-		h.b(b)
-		h.u(uint64(proto.Size(m)))
-		return sim.OpResult{Digest: h.h}
+		return c19LegacyOp(op.N)
 	case "pm-aberrant":
 		r, _ := abHandOp(op.N)
 		return r
